@@ -1461,10 +1461,22 @@ def where(cond, a=None, b=None):
         if k in "fc" and r.dtype != object:
             r = r.astype(object)
         return Tensor(r, dt)
+    if WHERE_FORKS:
+        # decide every symbolic condition by forking the path (2^k paths, but ite-free polynomials):
+        # z3 case-splits poorly on nested divisions of ite terms (PCHIP's safe-secant harmonic mean)
+        cb = np.asarray(np.frompyfunc(lambda c: _pybool(c), 1, 1)(ca)).astype(np.bool_)
+        r = np.where(cb, aa, ba)
+        if r.dtype != object:
+            r = r.astype(object)
+        return Tensor(r, dt)
     r = _v_ite(ca, aa, ba)
     if not isinstance(r, np.ndarray):
         r = _oa(r)
     return Tensor(r, dt)
+
+
+# when set, torch.where on symbolic conditions forks the path instead of building if-then-else atoms
+WHERE_FORKS = False
 
 
 def any(t, dim=None):  # noqa: A001
